@@ -254,7 +254,11 @@ CHECKS = {
              "body, per-task statement index and loop iteration): task_output_in_program_order (in EVERY reachable state, "
              "whatever the other tasks and the interleaving, the lines a task has printed are exactly those of the statements "
              "before its current one, each once, in order, plus the completed iterations of the loop it is in), "
-             "finished_task_printed_whole_body, finished_is_final, await_in_task/main_delivers_result. Tie: (A) random programs "
+             "finished_task_printed_whole_body, finished_is_final, await_in_task/main_delivers_result; and, at full strength on a "
+             "specification-level task semantics with continuations (CbModel/SchedSpec.lean, CbProps/C14Spec.lean): for EVERY "
+             "schedule (any sequence of task turns, any starvation) and yields placed anywhere in nested blocks / branches / "
+             "loops, a task's output followed by what its remaining code prints alone equals what its body prints alone "
+             "(any_schedule_preserves_task_meaning). Tie: (A) random programs "
              "of the modelled fragment — stdout (task lines and awaited values) equals the model's; the model is validated "
              "event-by-event against hook H3 by C15; (B) 1-3 tasks with parameters and locals whose structured bodies place "
              "`yield` by 15 features (top level, in for / while / if / else / block, nested loops, same counter name, changing "
